@@ -11,5 +11,6 @@ func main() {
 		"C10": c10{},
 		"C11": c11{},
 		"C12": c12{},
+		"C14": c14{},
 	})
 }
